@@ -160,6 +160,7 @@ class World(object):
         self.containers = []      # [obj, pristine]
         self.configs = []         # caller-owned Config instances handed to constructors (config=)
         self.cfg_template = None  # index into configs of the object installed as Config.template
+        self.config_pristine = []  # what each caller-owned Config looked like when the caller last touched it
         self.template = None      # slot index whose object is Fxp.template
         self.all_cbs = []
         self._cid = 0
@@ -279,6 +280,7 @@ class World(object):
                 if isinstance(r, Fxp) and self.reg_reaches(r, bad):
                     setattr(c, f, None)
                     self.bump('caller_config_register_dropped')
+        self.config_pristine = [self.snap_cfg(c) for c in self.configs]
 
     def reg_reaches(self, a, b, depth=0):
         """True iff object b is reachable from a through result-register fields (or a is b)."""
@@ -320,6 +322,14 @@ class World(object):
                             changed = True
 
     # ------------------------------------------------------------------ snapshots
+    def snap_cfg(self, cfg):
+        """Field-by-field image of a caller-owned Config (registers by identity)."""
+        out = []
+        for f in CFG_FIELDS:
+            v = getattr(cfg, '_' + f, None)
+            out.append((f, ('obj', id(v)) if isinstance(v, Fxp) else v))
+        return tuple(out)
+
     def snap_obj(self, obj):
         cfg = obj.config
         c = []
@@ -600,6 +610,10 @@ class World(object):
         ncb = int(op.get('ncb') or 0)
         st.kind = 'construct'
         st.pure = True
+        cfg_slot = None
+        if op.get('cfg_slot') is not None and not (op.get('cfg') is not None and self.configs):
+            cfg_slot = self.ref(op['cfg_slot'])
+            st.srcs = [cfg_slot]
         busy = [self.slots[i].obj for i in self.inflight()]
         if busy:
             # inside a callback: a Config (the caller's, or the global template) whose registers
@@ -633,6 +647,11 @@ class World(object):
             args['config'] = self.configs[op['cfg'] % len(self.configs)]
             st.extra['cfg'] = op['cfg'] % len(self.configs)
             self.bump('caller_config_used')
+        elif op.get('cfg_slot') is not None:
+            # the Config of a live object handed to the constructor (config=a.config)
+            args['config'] = self.obj(cfg_slot).config
+            st.extra['cfg'] = -1
+            self.bump('object_config_used')
         self.pending_owner = cbs
         try:
             if op.get('dtype') is not None:
@@ -1003,6 +1022,8 @@ class World(object):
             if op.get('out') is not None:
                 reg = self.obj(self.ref(op['out']))
                 kwargs['out'] = reg
+            elif op.get('out_like') is not None:
+                kwargs['out_like'] = self.obj(self.ref(op['out_like']))
             if op.get('sizing'):
                 kwargs['sizing'] = op['sizing']
             if op.get('method'):
@@ -1277,20 +1298,29 @@ class World(object):
             req = tuple(op['fmt'])
         else:
             s, w, f = self.fmt_args(op['fmt'])
-            req = (o.signed if s is None else s, o.n_word if w is None else w,
-                   o.n_frac if f is None else f)
+            ni = op.get('n_int')
+            rs = bool(o.signed) if s is None else s
+            if ni is not None:
+                # documented: with n_int and one other size the third follows arithmetically,
+                # counting the sign bit of the REQUESTED signedness
+                if w is None and f is not None:
+                    w = ni + f + (1 if rs else 0)
+                elif f is None and w is not None:
+                    f = w - ni - (1 if rs else 0)
+            req = (rs, o.n_word if w is None else w, o.n_frac if f is None else f)
         st.store = Store('dest', src=d, route='resize_dtype' if op.get('dtype') else 'resize',
                          modes_from=('slot', d), fmt_req=req)
-        if op.get('dtype') is not None:
-            st.redo = lambda t, so: t.resize(dtype=op['dtype'])
-        else:
-            st.redo = lambda t, so: t.resize(*self.fmt_args(op['fmt']))
+
+        def call(t):
+            if op.get('dtype') is not None:
+                return t.resize(dtype=op['dtype'])
+            a, b, c = self.fmt_args(op['fmt'])
+            if op.get('n_int') is not None:
+                return t.resize(a, b, c, op['n_int'])
+            return t.resize(a, b, c)
+        st.redo = lambda t, so: call(t)
         yield
-        if op.get('dtype') is not None:
-            self.obj(d).resize(dtype=op['dtype'])
-        else:
-            s, w, f = self.fmt_args(op['fmt'])
-            self.obj(d).resize(s, w, f)
+        call(self.obj(d))
         self.fresh_buffer(d)
 
     def op_reset(self, st):
@@ -1446,6 +1476,7 @@ class World(object):
         if r is not None:
             kw[op.get('field', 'op_out')] = self.obj(r)
         self.configs.append(Config(**kw))
+        self.config_pristine.append(self.snap_cfg(self.configs[-1]))
 
     def op_cfg_mutate(self, st):
         """The caller changes its own Config after having used it: no object may notice."""
@@ -1455,7 +1486,9 @@ class World(object):
         st.kind = 'env'
         st.pure = True
         yield
-        setattr(self.configs[op['c'] % len(self.configs)], op['field'], op['value'])
+        c = op['c'] % len(self.configs)
+        setattr(self.configs[c], op['field'], op['value'])
+        self.config_pristine[c] = self.snap_cfg(self.configs[c])
         self.bump('fault_F6_caller_config_mutated')
 
     def op_cont_mutate(self, st):
